@@ -79,6 +79,43 @@ func c03Apply(f *refage.File, owner []int, e c03Edit, seed uint64) (hdr []byte, 
 	switch e.Kind {
 	case "none":
 		benign = true
+	case "rewrap":
+		// the same stanzas, one body wrapped at another column: same
+		// characters, different bytes
+		var out []byte
+		out = append(out, refage.Intro...)
+		did := false
+		for i := range h.Stanzas {
+			m := h.Stanzas[i].Marshal()
+			if i == j && len(h.Stanzas[i].Body) >= 48 {
+				nl := bytes.IndexByte(m, '\n')
+				body := bytes.ReplaceAll(m[nl+1:len(m)-1], []byte("\n"), nil)
+				w := []int{63, 60, 32, 62, 61}[e.K%5]
+				var sb bytes.Buffer
+				sb.Write(m[:nl+1])
+				sb.Write(body[:w])
+				sb.WriteByte('\n')
+				rest := body[w:]
+				for len(rest) >= 64 {
+					sb.Write(rest[:64])
+					sb.WriteByte('\n')
+					rest = rest[64:]
+				}
+				sb.Write(rest)
+				sb.WriteByte('\n')
+				m = sb.Bytes()
+				did = true
+			}
+			out = append(out, m...)
+		}
+		out = append(out, []byte("--- "+refage.B64(h.MAC)+"\n")...)
+		if !did {
+			return f.Header.Marshal(), touched, true
+		}
+		for i := range owner {
+			touch(i)
+		}
+		return out, touched, false
 	case "raw-flip", "raw-insert", "raw-delete":
 		raw := f.Header.Marshal()
 		off := e.Off % len(raw)
@@ -291,7 +328,7 @@ func c03Gen(t *rapid.T) c03Case {
 	if rapid.Bool().Draw(t, "moreIdentities") {
 		c.ForeignBefore, c.ForeignAfter = rapid.IntRange(0, 2).Draw(t, "fb"), rapid.IntRange(0, 3).Draw(t, "fa")
 	}
-	kinds := []string{"type", "type-swap", "arg-char", "arg-add", "arg-del", "body-flip", "body-len", "body-swap", "insert-grease", "insert-attacker", "delete", "dup", "permute", "mac-only", "raw-flip", "raw-insert", "raw-delete", "none"}
+	kinds := []string{"type", "type-swap", "arg-char", "arg-add", "arg-del", "body-flip", "body-len", "body-swap", "insert-grease", "insert-attacker", "delete", "dup", "permute", "mac-only", "raw-flip", "raw-insert", "raw-delete", "rewrap", "rewrap", "none"}
 	e := c03Edit{Kind: rapid.SampledFrom(kinds).Draw(t, "edit"), J: rapid.IntRange(0, 11).Draw(t, "j"), K: rapid.IntRange(0, 11).Draw(t, "k"), N: rapid.IntRange(0, 300).Draw(t, "n")}
 	e.MAC = rapid.SampledFrom([]string{"keep", "keep", "random", "wrongkey", "truekey"}).Draw(t, "mac")
 	switch e.Kind {
@@ -307,6 +344,8 @@ func c03Gen(t *rapid.T) c03Case {
 			n += len(refStanza(p, r, c03FileKey, uint64(i)))
 		}
 		e.Perm = rapid.Permutation(seq(n)).Draw(t, "perm")
+	case "rewrap":
+		e.MAC = "keep"
 	case "raw-flip", "raw-insert", "raw-delete":
 		e.MAC = "keep"
 		e.Off = rapid.IntRange(0, 5000).Draw(t, "off")
